@@ -21,6 +21,10 @@ Example C19_mapping_pinned :
   mapping_pinned proto_fields_FlowType1 hdr_fields_FlowType1 conv_rows_FlowType1 = true /\
   mapping_pinned proto_fields_FlowType2 hdr_fields_FlowType2 conv_rows_FlowType2 = true.
 Proof. split; vm_compute; reflexivity. Qed.
+(* ... so the converter the oracle judges against (targets looked up by the pinned names) is the
+   regenerated one the theorems speak about *)
+Example C19_spec_is_code : conv1_spec = conv1 /\ conv2_spec = conv2.
+Proof. split; vm_compute; reflexivity. Qed.
 Example C19_delimiter_matches_source : N.of_nat delimit_len = c_kafka_consumer_msgDelimitLen /\ delimit_len = 4%nat.
 Proof. split; reflexivity. Qed.
 
